@@ -1,5 +1,9 @@
 """C12 — fields and forests keep their structural invariants.
 
+Second extension wave: threshold_bifurcations = component tree of the superlevel sets (Props/C12U, `bifk` lines: cut
+index per level), forest leftovers (Props/C12G, C12P), subfield renumbering and basin numbering (Props/C12R), the value
+of a local_maxima depth (Props/C12L), Field histories with a dtype flag and graph edits in the model.
+
 Extension round: operation histories on one Forest object (harness/props/c12_hist.py, Lean
 Model/C12B: state = parents + edges + children cache) and on one Field object
 (c12_fieldhist.py, Model/C12F), threshold_bifurcations / get_local_maxima / masked arg-max
@@ -224,7 +228,8 @@ class C12(PropertyCheck):
     id = "C12"
     title = "Fields and forests keep their structural invariants"
     lean_modules = ["NipyVerif.Props.C12", "NipyVerif.Props.C12B", "NipyVerif.Props.C12F",
-                    "NipyVerif.Props.C12W"]
+                    "NipyVerif.Props.C12W", "NipyVerif.Props.C12U", "NipyVerif.Props.C12G", "NipyVerif.Props.C12P",
+                    "NipyVerif.Props.C12R", "NipyVerif.Props.C12L"]
     driver = "Drivers/C12.lean"
     rule = ("cases are (graph, field, operator arguments), (parent array, sub-forest mask, property, labels, "
             "heights, cut level, k), operation HISTORIES on one Forest object (every public method, queries before "
@@ -248,32 +253,50 @@ class C12(PropertyCheck):
         "Forest history model: get_descendants is sorted once (the code sorts at every recursion level: same list); "
         "all_distances (Dijkstra on the unit-weight tree) and cc (lil_cc) are modelled through the child->parent map "
         "the edge array encodes: path through the first common ancestor / components numbered by smallest vertex",
-        "Field histories: which dilation path runs (`fast and dtype == float64`) is observed on the object and passed "
-        "to the model (both paths are proved equal); constrained_voronoi, geodesic_kmeans, ward, "
+        "Field histories: the model state carries the graph, the columns and a dtype flag (float64 or not); which "
+        "dilation path runs (`fast and dtype == float64`) is computed by the model from the call's flag and that flag "
+        "(the harness only tells the dtype of the data given to the constructor / set_field and compares the flag after "
+        "every step; diffusion yields float64); set_edges / edge assignment / set_weights are model operations "
+        "(refused edits included), no re-synchronisation; constrained_voronoi, geodesic_kmeans, ward, "
         "threshold_bifurcations, get_field, compact_neighb are frame-only steps of a history (the model says the "
-        "object is unchanged; their values are checked by oracle — geodesic labelling — or by their own line kinds)",
+        "object is unchanged; their values are checked by oracle - geodesic labelling - or by their own line kinds)",
+        "threshold_bifurcations component-tree theorems assume a symmetric neighbour relation (SymmRows / Graph.Symm); on "
+        "directed graphs the model is still run against the code (bif, bifk lines) but only 'labels exactly the "
+        "above-threshold vertices' is claimed; concrete values of the sweep cannot be `decide`d in the kernel "
+        "(List.mergeSort is well-founded), non-vacuity is by the general existence lemma + correspondence",
         "WeightedForest.plot / plot_height (matplotlib drawing) are excluded; the agglomeration routines of "
         "hierarchical_clustering.py (ward*, average_link*, fusion, _inertia*, _label*) belong to C14",
     ]
     level_note = ("proved for all inputs of the model: both dilation paths = closed-neighbourhood maximum and agree "
                   "(incl. the compact_neighb slices), erosion = closed-neighbourhood minimum, opening/closing "
                   "order and idempotence for every nbiter on symmetric graphs; steepest ascent reaches a fixed point "
-                  "within V steps on every field (pigeonhole on a strict order), each basin has exactly one maximum "
-                  "which is its root, labels agree with ascent chains, the masked arg-max the code uses for idx is the "
-                  "root; local_maxima depth is positive exactly at local maxima; threshold_bifurcations labels exactly "
-                  "the above-threshold vertices for every tie order; diffusion = n-fold linear application of the "
-                  "adjacency = dense matrix product; a Field history is the composition of the modelled operators and "
-                  "leaves the graph alone; check <=> every vertex reaches a root within V steps, no cycles, the patched "
-                  "constructor guard; children/leaf/root/descendant consistency; depth strict at any fixed point of the "
-                  "sweep; reordering conjugates every iterate of the parent map and keeps a forest a forest; after ANY "
-                  "history of public Forest methods the object is coherent (edges and children cache describe the "
-                  "current parents), is a forest, and every query answers for the current parents; the unpatched "
-                  "reorder (stale cache) and the unpatched range guard are shown to break this; WeightedForest height "
-                  "monotone along ancestry, cuts keep whole subtrees. Partial / by correspondence and oracle only: the "
-                  "value of a positive local_maxima depth, the cc numbering of basins against lil_cc, the parent "
-                  "hierarchy of threshold_bifurcations vs superlevel-set components, subfield renumbering in "
-                  "watershedC, upward propagation rule, convergence of depth_from_leaves within V sweeps, "
-                  "subforest never refused on a forest, split/partition label values, geodesic_kmeans/ward values")
+                  "within V steps on every field, each basin has exactly one maximum which is its root, labels agree "
+                  "with ascent chains and are numbered by the first vertex of the basin, the arg-max the code uses for "
+                  "idx is the root; renumb of subfield/subgraph is an order isomorphism onto the retained vertices, the "
+                  "sub-graph is the induced graph and labels are written back to the right vertices; local_maxima: k "
+                  "dilations = maximum over the k-hop ball, the loop stops within V-1 rounds and the depth is the radius "
+                  "of the largest ball in which the vertex is maximal (cap max(K,1) otherwise); threshold_bifurcations: "
+                  "the sweep (saddle bookkeeping root[root==j]=q included) is a union-find - after any prefix of any "
+                  "duplicate-free order two processed vertices have the same root iff connected among the processed "
+                  "vertices; parent is a forest (parents are later regions) with root = top ancestor; a region is "
+                  "created exactly at a local maximum w.r.t. the processed set or at a saddle joining >= 2 components; "
+                  "earlier hierarchies are cuts of the final one; for every valid tie order and every level t the trees "
+                  "of the returned parent array cut at cutIndex(t) are the components of {field >= t} in the original "
+                  "graph (through the subfield renumbering); ancestry = inclusion; idx[c] is a maximal vertex of region "
+                  "c; diffusion = n-fold linear application of the adjacency = dense matrix product; a Field history "
+                  "(in-place operators of any dtype/path, interleaved with set_edges/set_weights) is the composition of "
+                  "the operators each on the graph the object had when it ran; check <=> every vertex reaches a root "
+                  "within V steps, no cycles, the patched constructor guard; children/leaf/root/descendant consistency "
+                  "(both get_descendants flags); depth_from_leaves = height above the leaves on every forest, reached "
+                  "within V sweeps (fixed point, strict); subforest never refused on a forest, ancestry through "
+                  "retained nodes; propagate_upward_and and propagate_upward follow their documented rule on every "
+                  "forest whatever the numbering; cc labels equal iff same root; reordering conjugates every iterate of "
+                  "the parent map; after ANY history of public Forest methods the object is coherent, a forest, and "
+                  "every query answers for the current parents; the unpatched reorder (stale cache) and range guard are "
+                  "shown to break this; WeightedForest height monotone along ancestry, cuts keep whole subtrees. "
+                  "By correspondence and oracle only: first-occurrence numbering of cc()/partition labels and "
+                  "split(k) class counts, leaves_of_a_subtree, all_distances, tree_depth relation, "
+                  "constrained_voronoi / geodesic_kmeans / ward values, bifurcations on directed graphs")
     finding_keys = {"forest-parent-range": "Forest/WeightedForest constructor accepts parent entries equal to V or "
                                            "negative (NumPy wrap-around): rootless or unusable objects"}
 
@@ -608,6 +631,13 @@ class C12(PropertyCheck):
             elif any((int(tb[2][v]) >= 0) != bool(valid[v]) for v in range(V)):
                 fails.append(f"threshold_bifurcations does not label exactly the above-threshold vertices: "
                              f"{[int(x) for x in tb[2]]}")
+            if valid.any():
+                # cut index of the component-tree theorem at the level of every vertex of the order: the number of
+                # regions born at or above that level, recomputed here from the values at the returned idx
+                births = [float(col[int(i)]) for i in tb[0]]
+                sub = col[valid]
+                lines.append(f"bifk {refdim} {fr(th_eff)} {g} {f} {len(order)} " + " ".join(str(int(x)) for x in order))
+                impl.append(("txt", " ".join(str(sum(1 for b in births if b >= float(sub[int(w)]))) for w in order)))
         else:
             impl.append(("err", tb))
         nontrivial = bool(c["edges"]) and len(set(col.tolist())) > 1
